@@ -588,6 +588,12 @@ def cli_cases(g, group, thorough):
             elif end == 2:
                 script += "n"            # premature end of input, last line unterminated
             out.append((flag, src, script))
+        # the smallest programs, stepped and plain: nothing / one instruction after `start:`, explicit final hlt
+        for tiny in ["start:", "start:\n", "start: hlt", "start:\nhlt\n", "start:\nnop", "start:\nprint reg", "x: db 1\nstart:\n", "def f {\n}\nstart:\n",
+                     "start:\ninc ax\nhlt", "start:\ninc ax\nhlt\n", "start:\ninc ax\njmp e\nhlt\ne:\n", "start:\nmov ax, 0x0100\npush ax\npopf\nhlt\n",
+                     "start:\npush cs\npop ax\nprint reg\n", "start:\npush ds\npush es\npush ss\npush cs\nint 3\nprint reg\n"]:
+            for fl, script in (("i", "n\n" * 8), ("i", ""), ("i", "print reg\nq\n"), ("-", "n\n" * 8)):
+                out.append((fl, tiny, script))
     elif group == "ints":
         for case_i in range(n(600, 4000)):
             ah = r.choice([1, 2, 0x0A, 0x0A, 0x13, 0x0A, r.randrange(256)])
